@@ -15,7 +15,10 @@
 //!   `rx run|stop|kill`        | `handled=<ids|-> exit=<reason|-> st=<status> self=<id:res,…|->`
 //!   `end <signature>`         | `word=<c> <m> <n> st=<status> handled=<ids|-> sup=<events> alive=<0|1>`
 //!
-//! usage: admission --seed S --cases N --out DIR [--enum-cap K] [--enum 0|1]
+//!   `stress <i> k= m= drain= stop=` | `sends=<id:res:t0:t1,…> handled=<ids> drain=<t0:t1|-> sup=<events> exited=<0|1>`
+//!                               (free-running threads; t = tickets of one global counter; oracle only)
+//!
+//! usage: admission --seed S --cases N --out DIR [--enum-cap K] [--enum 0|1] [--stress N]
 //!                  [--replay-ops f1,f2 [--only-replay 1]]
 
 use std::cell::RefCell;
@@ -136,6 +139,10 @@ struct Shared {
     rets: Mutex<Vec<String>>,
     /// `<id>:<res>` of the sends the handler issued to its own actor
     selfsends: Mutex<Vec<String>>,
+    /// stress mode: global ticket counter (a total order consistent with real time) and the
+    /// `(id, res, t0, t1)` records of the handler's own sends
+    tick: AtomicU64,
+    self_recs: Mutex<Vec<(u64, String, u64, u64)>>,
 }
 
 struct Ctx {
@@ -254,6 +261,7 @@ impl Actor for Target {
         if m.resend {
             // a send from the actor to itself (complete, on the actor's own task)
             let id = self.sh.next_id.fetch_add(1, Ordering::SeqCst);
+            let t0 = self.sh.tick.fetch_add(1, Ordering::SeqCst);
             let r = match myself.send_message(Msg { id, nested: Vec::new(), box_fails: false, resend: false }) {
                 Ok(()) => "ok".to_string(),
                 Err(MessagingErr::SendErr(b)) if b.id == id => "sendErr".to_string(),
@@ -261,6 +269,8 @@ impl Actor for Target {
                 Err(MessagingErr::InvalidActorType) => "invalidType".to_string(),
                 Err(MessagingErr::ChannelClosed) => "channelClosed".to_string(),
             };
+            let t1 = self.sh.tick.fetch_add(1, Ordering::SeqCst);
+            self.sh.self_recs.lock().unwrap().push((id, r.clone(), t0, t1));
             self.sh.selfsends.lock().unwrap().push(format!("{id}:{r}"));
         }
         Ok(())
@@ -341,7 +351,7 @@ fn quiesce(rt: &tokio::runtime::Runtime) {
 fn run_case(env: &mut Env, progs: &[Vec<Op>], eager_local: bool, choose: &mut dyn FnMut(&View) -> Choice) {
     let handled = Arc::new(Mutex::new(Vec::new()));
     let events = Arc::new(Mutex::new(Vec::new()));
-    let shared = Arc::new(Shared { next_id: AtomicU64::new(0), rets: Mutex::new(Vec::new()), selfsends: Mutex::new(Vec::new()) });
+    let shared = Arc::new(Shared { next_id: AtomicU64::new(0), rets: Mutex::new(Vec::new()), selfsends: Mutex::new(Vec::new()), tick: AtomicU64::new(0), self_recs: Mutex::new(Vec::new()) });
     let (aref, sup_ref) = env.rt.block_on(async {
         let (sup_ref, _) = Actor::spawn(None, Sup { events: events.clone() }, ()).await.expect("spawn sup");
         let (aref, _) = Actor::spawn_linked(None, Target { handled: handled.clone(), sh: shared.clone() }, (), sup_ref.get_cell())
@@ -699,6 +709,139 @@ fn replay_file(env: &mut Env, path: &str) {
     }
 }
 
+/// Free-running stress case (no schedule points, real threads, multi-threaded runtime): K sender
+/// threads x M messages, optionally a drainer and a stopper. Every send takes a ticket from one
+/// global counter before it starts and after it returned (a total order consistent with real time),
+/// so the oracle can judge real-time order without wall-clock times. Judged by the oracle only.
+fn stress_case(env: &mut Env, srt: &tokio::runtime::Runtime, rng: &mut Rng, idx: u64) {
+    let k = rng.range(2, 4) as usize;
+    let m = rng.range(1, 40) as usize;
+    let with_drain = rng.chance(3, 4);
+    let with_stop = rng.chance(1, 8);
+    let resend_every = rng.range(0, 6);
+    let delay = rng.range(0, 30) * rng.range(0, 1500);
+    let handled = Arc::new(Mutex::new(Vec::new()));
+    let events = Arc::new(Mutex::new(Vec::new()));
+    let shared = Arc::new(Shared {
+        next_id: AtomicU64::new(0),
+        rets: Mutex::new(Vec::new()),
+        selfsends: Mutex::new(Vec::new()),
+        tick: AtomicU64::new(0),
+        self_recs: Mutex::new(Vec::new()),
+    });
+    let (aref, handle, sup_ref) = srt.block_on(async {
+        let (sup_ref, _) = Actor::spawn(None, Sup { events: events.clone() }, ()).await.expect("spawn sup");
+        let (aref, h) = Actor::spawn_linked(None, Target { handled: handled.clone(), sh: shared.clone() }, (), sup_ref.get_cell())
+            .await
+            .expect("spawn target");
+        (aref, h, sup_ref)
+    });
+    let cell = aref.get_cell();
+    let recs: Arc<Mutex<Vec<(u64, String, u64, u64)>>> = Arc::new(Mutex::new(Vec::new()));
+    let mut joins = Vec::new();
+    let start = Arc::new(std::sync::Barrier::new(k + usize::from(with_drain) + usize::from(with_stop)));
+    for _ in 0..k {
+        let aref = aref.clone();
+        let sh = shared.clone();
+        let recs = recs.clone();
+        let start = start.clone();
+        joins.push(std::thread::spawn(move || {
+            start.wait();
+            let mut mine = Vec::new();
+            for j in 0..m {
+                let id = sh.next_id.fetch_add(1, Ordering::SeqCst);
+                let resend = resend_every > 0 && (j as u64) % resend_every == 0;
+                let t0 = sh.tick.fetch_add(1, Ordering::SeqCst);
+                let r = aref.send_message(Msg { id, nested: Vec::new(), box_fails: false, resend });
+                let t1 = sh.tick.fetch_add(1, Ordering::SeqCst);
+                let r = match r {
+                    Ok(()) => "ok".to_string(),
+                    Err(MessagingErr::SendErr(b)) if b.id == id => "sendErr".to_string(),
+                    Err(MessagingErr::SendErr(b)) => format!("sendErrWrongMessage({})", b.id),
+                    Err(MessagingErr::InvalidActorType) => "invalidType".to_string(),
+                    Err(MessagingErr::ChannelClosed) => "channelClosed".to_string(),
+                };
+                mine.push((id, r, t0, t1));
+            }
+            recs.lock().unwrap().extend(mine);
+        }));
+    }
+    let drain_rec: Arc<Mutex<Option<(u64, u64)>>> = Arc::new(Mutex::new(None));
+    if with_drain {
+        let cell = cell.clone();
+        let sh = shared.clone();
+        let start = start.clone();
+        let dr = drain_rec.clone();
+        joins.push(std::thread::spawn(move || {
+            start.wait();
+            for _ in 0..delay {
+                std::hint::spin_loop();
+            }
+            let t0 = sh.tick.fetch_add(1, Ordering::SeqCst);
+            let _ = cell.drain();
+            let t1 = sh.tick.fetch_add(1, Ordering::SeqCst);
+            *dr.lock().unwrap() = Some((t0, t1));
+        }));
+    }
+    if with_stop {
+        let cell = cell.clone();
+        let start = start.clone();
+        joins.push(std::thread::spawn(move || {
+            start.wait();
+            for _ in 0..(delay * 3) {
+                std::hint::spin_loop();
+            }
+            cell.stop(None);
+        }));
+    }
+    for j in joins {
+        j.join().expect("stress thread panicked");
+    }
+    // let the actor finish: it exits by itself after a drain / stop; otherwise wait until it has
+    // handled everything that was accepted (bounded), then stop it
+    let exited = srt.block_on(async {
+        if with_drain || with_stop {
+            tokio::time::timeout(Duration::from_secs(10), handle).await.is_ok()
+        } else {
+            let mut all = recs.lock().unwrap().clone();
+            for _ in 0..2000 {
+                all = recs.lock().unwrap().clone();
+                all.extend(shared.self_recs.lock().unwrap().iter().cloned());
+                let oks = all.iter().filter(|r| r.1 == "ok").count();
+                if handled.lock().unwrap().len() >= oks {
+                    break;
+                }
+                tokio::time::sleep(Duration::from_millis(1)).await;
+            }
+            let _ = all;
+            false
+        }
+    });
+    srt.block_on(async { tokio::time::sleep(Duration::from_millis(2)).await });
+    let mut all = recs.lock().unwrap().clone();
+    all.extend(shared.self_recs.lock().unwrap().iter().cloned());
+    all.sort_by_key(|r| r.0);
+    let sends = if all.is_empty() {
+        "-".to_string()
+    } else {
+        all.iter().map(|(id, r, t0, t1)| format!("{id}:{r}:{t0}:{t1}")).collect::<Vec<_>>().join(",")
+    };
+    let drain = drain_rec.lock().unwrap().map_or("-".to_string(), |(a, b)| format!("{a}:{b}"));
+    let obs = format!(
+        "sends={sends} handled={} drain={drain} sup={} exited={}",
+        show_ids(&handled.lock().unwrap()),
+        events.lock().unwrap().join(","),
+        exited as u8
+    );
+    env.log.rec(format!("stress {idx} k={k} m={m} drain={} stop={}", with_drain as u8, with_stop as u8), obs);
+    env.st.bump("stress_cases");
+    env.st.add("stress_sends", all.len() as u64);
+    env.st.add("stress_rejected", all.iter().filter(|r| r.1 != "ok").count() as u64);
+    cell.stop(None);
+    sup_ref.stop(None);
+    srt.block_on(async { tokio::time::sleep(Duration::from_millis(1)).await });
+}
+
 fn s(nested: Vec<Op>) -> Op {
     Op::Send { nested, box_fails: false, resend: false }
 }
@@ -763,6 +906,13 @@ fn main() {
             let progs: Vec<Vec<Op>> = (0..k).map(|_| gen_ops(&mut rng, 0, 3)).collect();
             let eager = rng.chance(1, 2);
             random_case(&mut env, &mut rng, &progs, eager);
+        }
+    }
+    let stress = args.u64("stress", 0);
+    if stress > 0 && args.u64("only-replay", 0) == 0 {
+        let srt = tokio::runtime::Builder::new_multi_thread().worker_threads(2).enable_time().build().expect("stress runtime");
+        for i in 0..stress {
+            stress_case(&mut env, &srt, &mut rng, i);
         }
     }
     env.st.add("lines", env.log.lines);
